@@ -325,6 +325,10 @@ def rule_arrays(rep, idx):
     try:
         M.I.invoke(f, cg, [decl])
     except Thrown as ex:
+        if str(ex.what).startswith('undefined behaviour'):
+            # the visitor object was assembled by the model, not by a traversal: an empty scope stack etc. is the model's doing
+            rep.undecided('R4', 'array-address', 'the model of the visitor state does not fit this code: %s' % ex.what, pos(f.node) + ' ' + f.qname)
+            return
         rep.add('R4', 'array-address', False, pos(f.node) + ' ' + f.qname, 'fails: %s' % ex.what)
         return
     except NeedSplit as ex:
